@@ -35,11 +35,11 @@ META = {
                   "the probability-weighted mean: it must reproduce rho and tr(rho P) for every Pauli word to 1e-10 (the recipe/outcome space is "
                   "enumerated exhaustively per state; states are sampled). Device measurements are tested statistically (alpha 1e-9, two-stage).",
     "level_note": "Born weights and reference expectation values come from the harness' own Pauli matrices (pv/ref/gates.py). Statistical part: "
-                  "chi-square/z-tests can miss small biases (power limited by T <= 2.4e4 quick / 1.6e5 confirm). 'exhaustive' refers to the "
+                  "chi-square/z-tests can miss small biases (power limited by T <= 5e3 (quick) / 1e4 (thorough) shots, 8x on confirmation). 'exhaustive' refers to the "
                   "recipe x outcome space for n <= 3, not to states/observable front-ends.",
     "shards": {"quick": 2, "thorough": 16},
     "budget_s": {"quick": 150, "thorough": 600},
-    "min_evals": {"quick": 1500, "thorough": 30000},
+    "min_evals": {"quick": 1500, "thorough": 20000},
     "deciding": ["snapshot.local", "shadow.state", "shadow.expval", "device.form", "device.stat"],
     "rule": "case = (family, state, wire labels, observable list); distinct = distinct (family, n, state bytes, labels); non-trivial = state is "
             "not a computational basis state (enumeration families) / at least one measured wire not in a Z eigenstate (device family)",
@@ -463,7 +463,7 @@ def device_case(ctx, qp, rng, gi):
     rho = reduced(rho_full, N, meas_pos)
     bits_t, rec_t = enum_table(k)
     w = weights(rho, bits_t, rec_t)
-    T = int(rng.choice([2000, 3000, 5000])) if ctx.quick else int(rng.choice([3000, 8000, 20000]))
+    T = int(rng.choice([2000, 3000, 5000])) if ctx.quick else int(rng.choice([3000, 6000, 10000]))
     info = {"family": "device", "device": devname, "dev_wires": dev_wires, "measured": meas, "shots": T, "standard_wires": standard, "bitflip": p_flip}
     nontriv = bool(np.max(np.abs(np.diag(rho).real)) < 1 - 1e-6)
     ctx.case(fingerprint("device", devname, psi.round(9).tobytes(), repr(dev_wires), repr(meas), p_flip), nontrivial=nontriv,
@@ -601,7 +601,7 @@ def run(ctx):
     import pennylane as qp
 
     warnings.filterwarnings("ignore")
-    plan = [("enum", ctx.n(36, 1600), enum_case), ("stab", ctx.n(40, 1600), stab_case), ("device", ctx.n(50, 1600), device_case)]
+    plan = [("enum", ctx.n(36, 800), enum_case), ("stab", ctx.n(40, 800), stab_case), ("device", ctx.n(50, 800), device_case)]
     base = 0
     for kind, count, fn in plan:
         for i in range(count):
